@@ -1498,3 +1498,57 @@ def table_lookup(table, **conds):
         if all(d.get(a, b) == b for a, b in conds.items()):
             out |= v
     return out
+
+
+# ---------------------------------------------------------------------------
+# captured variables seen from inside a closure
+
+
+def upvar_term(prog, body, name, depth=0):
+    """The term (in the enclosing body's context) that closure `body` captured under `name`, following nested closures."""
+    if depth > 4:
+        return ("upvar", name)
+    parents = [prog.body(body.parent)] if prog.body(body.parent) is not None else [prog.body(x) for x in (getattr(prog, "inlined_into", {}).get(body.parent) or [])]
+    names = [u["name"] for u in body.upvars]
+    if name not in names:
+        return ("upvar", name)
+    idx = names.index(name)
+    for P in parents:
+        if P is None:
+            continue
+        for bl in P.blocks:
+            for s in bl["s"]:
+                if s["k"] == "assign" and s["rv"]["k"] == "agg" and s["rv"].get("ak") in ("closure", "coroutine", "coroutine_closure") and strip_generics(s["rv"].get("body")) == body.path:
+                    ops = s["rv"]["ops"]
+                    if idx < len(ops):
+                        t = strip_identity(Origins(P).of_operand(ops[idx]))
+                        return expand_upvars(prog, P, t, depth + 1) if P.kind == "Closure" else t
+    return ("upvar", name)
+
+
+def expand_upvars(prog, body, t, depth=0):
+    """Replace every ('upvar', name) leaf of `t` by what the closure captured."""
+    if isinstance(t, tuple):
+        if len(t) == 2 and t[0] == "upvar":
+            return upvar_term(prog, body, t[1], depth)
+        return tuple(expand_upvars(prog, body, x, depth) for x in t)
+    return t
+
+
+def phi_alternatives(body, o, operand):
+    """[(def_block, term)] for the definitions reaching `operand` when its local (followed through single-definition
+    copies/moves) is assigned on several branches - e.g. a reply hoisted out of the arms of a match into one variable.
+    A single-definition value yields [(None, term)]."""
+    pl = op_place(operand)
+    if pl is None or not isinstance(pl, int):
+        return [(None, o.of_operand(operand))]
+    cur = pl
+    for _ in range(8):
+        ds = [d for d in body.defs().get(cur, []) if d[0] != "partial"]
+        if len(ds) == 1 and ds[0][0] == "assign" and ds[0][3]["k"] == "use" and isinstance(op_place(ds[0][3]["op"]), int):
+            cur = op_place(ds[0][3]["op"])
+            continue
+        if len(ds) >= 2 and all(d[0] in ("assign", "call") for d in ds):
+            return [(d[1], o._of_def(d, 1, frozenset({cur}))) for d in ds]
+        break
+    return [(None, o.of_operand(operand))]
